@@ -197,6 +197,14 @@ func (r FileReplacer) Replace(d data.Data, cl Changelog) (*ast.File, error) {
 
 		give, err := r.NodeReplacer.Replace(m.data, cl, m.region.Pos)
 		if err != nil {
+			// What the "+" side asks for cannot be built for this match
+			// (say, the metavariable in "obj.x()" stands for a call here):
+			// like a replacement that does not fit its slot, below, this
+			// match is left alone. The others are still rewritten.
+			var misfit *misfitError
+			if errors.As(err, &misfit) {
+				continue
+			}
 			return nil, err
 		}
 
